@@ -121,6 +121,9 @@ func (c *evalCtx) toMath(ev EV) *smt.Term {
 	case ev.Lit != nil:
 		return cx.BVLit(ev.Lit, mathW)
 	case ev.Math:
+		if ev.V.Terms[0].Sort.Width() >= mathW {
+			return ev.V.Terms[0]
+		}
 		return cx.Extend(ev.V.Terms[0], mathW, true)
 	case ev.V.Typ != nil && isInteger(ev.V.Typ):
 		return cx.Extend(ev.V.Terms[0], mathW, isSigned(ev.V.Typ))
@@ -192,6 +195,26 @@ func (c *evalCtx) eval(x Expr) EV {
 		return c.index(n)
 	case *ECall:
 		return c.callExpr(n)
+	case *ETypeQuant:
+		var set []types.Type
+		for _, k := range typeSets[n.Set] {
+			set = append(set, types.Typ[k])
+		}
+		if set == nil {
+			c.fail("unknown type set %q", n.Set)
+		}
+		var cs []*smt.Term
+		saved, had := c.bound[n.Var]
+		for _, t := range set {
+			c.bound[n.Var] = EV{Type: t}
+			cs = append(cs, c.boolean(n.Body, "forallT body"))
+		}
+		if had {
+			c.bound[n.Var] = saved
+		} else {
+			delete(c.bound, n.Var)
+		}
+		return boolEV(cx.And(cs...))
 	case *EQuant:
 		t := c.resolveType(n.Type)
 		sorts := e.comps(t)
@@ -216,6 +239,13 @@ func (c *evalCtx) eval(x Expr) EV {
 	}
 	c.fail("unsupported expression %T", x)
 	return EV{}
+}
+
+var typeSets = map[string][]types.BasicKind{
+	"ints":   {types.Int, types.Int8, types.Int16, types.Int32, types.Int64, types.Uint, types.Uint8, types.Uint16, types.Uint32, types.Uint64},
+	"sints":  {types.Int, types.Int8, types.Int16, types.Int32, types.Int64},
+	"uints":  {types.Uint, types.Uint8, types.Uint16, types.Uint32, types.Uint64},
+	"floats": {types.Float32, types.Float64},
 }
 
 func (c *evalCtx) binary(n *EBin) EV {
@@ -528,6 +558,9 @@ func (c *evalCtx) tryType(name string) types.Type {
 
 func (c *evalCtx) resolveType(s string) types.Type {
 	s = strings.TrimSpace(s)
+	if ev, ok := c.bound[s]; ok && ev.Type != nil {
+		return ev.Type
+	}
 	switch {
 	case strings.HasPrefix(s, "*"):
 		return types.NewPointer(c.resolveType(s[1:]))
@@ -728,7 +761,8 @@ func (c *evalCtx) callExpr(n *ECall) EV {
 			}
 			z := c.toMath(c.eval(n.Args[1]))
 			lo, hi := intRange(t)
-			return boolEV(cx.And(cx.Op("bvsle", smt.Bool, cx.BVLit(lo, mathW), z), cx.Op("bvsle", smt.Bool, z, cx.BVLit(hi, mathW))))
+			zw := z.Sort.Width()
+			return boolEV(cx.And(cx.Op("bvsle", smt.Bool, cx.BVLit(lo, zw), z), cx.Op("bvsle", smt.Bool, z, cx.BVLit(hi, zw))))
 		case "fresh":
 			a := c.eval(n.Args[0])
 			return boolEV(cx.Op(">=", smt.Bool, a.V.Terms[0], c.old.Alloc))
@@ -781,6 +815,25 @@ func (c *evalCtx) callExpr(n *ECall) EV {
 				k = c.litTo(k.Lit, mt.Key(), false)
 			}
 			return boolEV(e.mapHas(c.st, m.V, k.V.Terms[0]))
+		case "same":
+			a, b := c.eval(n.Args[0]), c.eval(n.Args[1])
+			if a.Lit != nil {
+				a = c.litTo(a.Lit, b.V.Typ, false)
+			}
+			if b.Lit != nil {
+				b = c.litTo(b.Lit, a.V.Typ, false)
+			}
+			var cs []*smt.Term
+			for i := range a.V.Terms {
+				cs = append(cs, cx.Eq(a.V.Terms[i], b.V.Terms[i]))
+			}
+			return boolEV(cx.And(cs...))
+		case "strnum":
+			a := c.eval(n.Args[0])
+			return mathEV(cx.App("gs.num", smt.BV(mathW), a.V.Terms[0]))
+		case "bigval":
+			a := c.eval(n.Args[0])
+			return mathEV(e.bigVal(c.st, a.V.Terms[0]))
 		case "isnil":
 			a := c.eval(n.Args[0])
 			return boolEV(cx.Eq(a.V.Terms[0], cx.IntLit(0)))
